@@ -19,7 +19,7 @@ open Taurex.Binning Taurex.Grid Taurex.Gen
 
 section
 variable {α : Type} [Add α] [Sub α] [Mul α] [Div α] [Neg α] [LT α] [LE α]
-  [DecidableLT α] [DecidableLE α] [Taurex.Transc α] [OfNat α 0] [OfNat α 1] [OfNat α 2]
+  [DecidableLT α] [DecidableLE α] [Taurex.Transc α] [OfNat α 0] [OfNat α 1] [OfNat α 2] [OfNat α 4] [OfNat α 5]
 
 /-- `compute_bin_edges` (the same source function as in C05) is `computeBinEdges` -/
 theorem src_compute_bin_edges (g : List α) : SrcC13.compute_bin_edges g = computeBinEdges g := by
@@ -29,9 +29,10 @@ theorem src_compute_bin_edges (g : List α) : SrcC13.compute_bin_edges g = compu
 
 /-- **`clip_native_to_wngrid(native_grid, wngrid)`** is `clipNative`: the boolean mask
     `(native >= wn_min) & (native <= wn_max)` selects exactly `native.filter (inClip wngrid)`, with
-    `wn_min/max = wngrid.min()/max() ∓ compute_bin_edges(wngrid)[-1].max()`.  Every carrier. -/
+    `wn_min/max = wngrid.min()/max() ∓ 1.25*compute_bin_edges(wngrid)[-1].max()`; the float literal `1.25` of the
+    source is the parameter `c1p25`, instantiated with the model's `5/4`.  Every carrier. -/
 theorem src_clip_native (native wngrid : List α) :
-    SrcC13.clip_native_to_wngrid native wngrid = clipNative native wngrid := by
+    SrcC13.clip_native_to_wngrid native wngrid (c1p25 := 5 / 4) = clipNative native wngrid := by
   simp only [SrcC13.clip_native_to_wngrid, src_compute_bin_edges, Np.zip2_map_map, Np.compress_map]
   rfl
 
